@@ -1,9 +1,468 @@
-import Model.Common
-/-! Oracle handlers for C06 (stub until the property's model exists). -/
+import Model.C06
+/-! Oracle handlers for C06 (and the shared replay used by C04): replay of a cluster history on the
+node model (`diff`), and the property statement evaluated on the implementation's observations
+(`judge`). Line format: see `harness/cmd/corr/c06.go`. -/
 namespace OracleC06
-open Common
+open Common Ring C06
 
-def handle (_cmd : String) (_f : List String) : String × String × String :=
-  ("unknown-cmd", "-", "-")
+/-! ### canonical encodings -/
+
+def showD (d : Desc) : String := showDesc (C03.sortById d)
+
+def showVal : Val → String
+  | .ring d => "r^" ++ showD d
+  | .part p => "p^" ++ C03P.showPDesc p
+
+def parseVal (kind body : String) : Option Val :=
+  if kind == "r" then (parseDesc body).map .ring
+  else if kind == "p" then (C03P.parsePDesc body).map .part
+  else none
+
+def insertByKey {α : Type} (x : String × α) : List (String × α) → List (String × α)
+  | [] => [x]
+  | y :: ys => if x.1 ≤ y.1 then x :: y :: ys else y :: insertByKey x ys
+def sortByKey {α : Type} (l : List (String × α)) : List (String × α) := l.foldr insertByKey []
+
+def bit (b : Bool) : String := if b then "1" else "0"
+
+def showStore (st : Store Val) : String :=
+  if st.isEmpty then "-" else
+  "|".intercalate ((sortByKey st).map fun (k, e) => s!"{k}={e.version}^{bit e.deleted}^{e.updateTime}^{showVal e.val}")
+
+def showView (st : Store Val) : String :=
+  if st.isEmpty then "-" else
+  "|".intercalate ((sortByKey st).map fun (k, e) => s!"{k}={showVal (MergeVal.gc none e.val)}")
+
+def showSnap (nd : Node Val) : String :=
+  s!"{showStore nd.store}@{nd.localQ.length},{nd.gossipQ.length}@{showView nd.store}"
+
+def showMsg (m : Msg Val) : String := s!"{m.key}={bit m.deleted}^{m.updateTime}^{showVal m.val}"
+
+/-- `key=deleted^ut^kind^value` -/
+def parseMsg (s : String) : Option (Msg Val) :=
+  match s.splitOn "=" with
+  | [k, rest] =>
+    match rest.splitOn "^" with
+    | [del, ut, kind, body] => do
+      let v ← parseVal kind body
+      pure { key := k, val := v, deleted := del == "1", updateTime := (← ut.toInt?) }
+    | _ => none
+  | _ => none
+
+structure Snap where
+  store : Store Val
+  ql : Nat
+  qg : Nat
+  view : List (String × Val)
+  raw : String
+
+def parseStore (s : String) : Option (Store Val) :=
+  if s == "-" then some [] else
+  (s.splitOn "|").mapM fun e =>
+    match e.splitOn "=" with
+    | [k, rest] =>
+      match rest.splitOn "^" with
+      | [ver, del, ut, kind, body] => do
+        let v ← parseVal kind body
+        pure (k, { val := v, version := (← ver.toNat?), deleted := del == "1", updateTime := (← ut.toInt?) })
+      | _ => none
+    | _ => none
+
+def parseView (s : String) : Option (List (String × Val)) :=
+  if s == "-" then some [] else
+  (s.splitOn "|").mapM fun e =>
+    match e.splitOn "=" with
+    | [k, rest] =>
+      match rest.splitOn "^" with
+      | [kind, body] => do pure (k, (← parseVal kind body))
+      | _ => none
+    | _ => none
+
+def parseSnap (s : String) : Option Snap :=
+  match s.splitOn "@" with
+  | [st, q, vw] =>
+    match q.splitOn "," with
+    | [a, b] => do
+      pure { store := (← parseStore st), ql := (← a.toNat?), qg := (← b.toNat?), view := (← parseView vw), raw := s }
+    | _ => none
+  | _ => none
+
+/-! ### events -/
+
+def parseOp (s : String) : Option Op :=
+  match s.splitOn ":" with
+  | ["nil"] => some .retNil
+  | ["same"] => some .same
+  | ["hb", id, d, st, mask] => do pure (.hb id (← d.toInt?) (← State.ofCode st) (← mask.toNat?))
+  | ["rm", id] => some (.rm id)
+  | ["pa", pid, d, st] => do pure (.pa (← pid.toInt?) (← d.toInt?) (← st.toNat?))
+  | ["pl", pid, d, l] => do pure (.pl (← pid.toInt?) (← d.toInt?) (l == "1"))
+  | ["pr", pid] => do pure (.pr (← pid.toInt?))
+  | ["oa", oid, d, pid, st] => do pure (.oa oid (← d.toInt?) (← pid.toInt?) (← st.toNat?))
+  | ["or", oid] => some (.orm oid)
+  | _ => none
+
+structure Conf where
+  n : Nat := 2
+  mult : Nat := 1
+  lit : Int := 0
+  ni : Bool := false
+  clash : Bool := false
+  gc : Bool := false
+  skew : Bool := false
+  del : Bool := false
+
+def parseConf (s : String) : Conf :=
+  (s.splitOn ",").foldl (fun c kv =>
+    match kv.splitOn "=" with
+    | ["n", v] => { c with n := v.toNat?.getD 2 }
+    | ["mult", v] => { c with mult := v.toNat?.getD 1 }
+    | ["lit", v] => { c with lit := v.toInt?.getD 0 }
+    | ["ni", v] => { c with ni := v == "1" }
+    | ["clash", v] => { c with clash := v == "1" }
+    | ["gc", v] => { c with gc := v == "1" }
+    | ["skew", v] => { c with skew := v == "1" }
+    | ["del", v] => { c with del := v == "1" }
+    | _ => c) {}
+
+def Conf.cfg (c : Conf) : Cfg := { lit := c.lit, ni := c.ni, lim := transmitLimit c.mult c.n }
+
+/-! ### replay on the model -/
+
+structure Sim where
+  conf : Conf
+  nodes : List (Node Val)
+  pool : List (Msg Val) := []
+  nextW : Nat := 0
+  changes : Nat := 0      -- number of store changes (for the tags)
+  silent : Nat := 0       -- visible value changed without a version bump (tombstone collection in a no-change merge)
+
+def Sim.node (s : Sim) (i : Nat) : Node Val := s.nodes.getD i {}
+def verSum (nd : Node Val) : Nat := (nd.store.map (·.2.version)).foldl (· + ·) 0
+
+/-- the schedule of the implementation's watcher goroutines: they run as soon as they are notified -/
+def drainW (nd : Node Val) : Node Val :=
+  { nd with watchers := nd.watchers.map fun w => w.runAll nd.store w.pending.length }
+
+def Sim.setNode (s : Sim) (i : Nat) (nd : Node Val) : Sim :=
+  let nd := drainW nd
+  let old := s.nodes.getD i {}
+  { s with nodes := s.nodes.set i nd,
+           silent := s.silent + (if verSum old == verSum nd ∧ showView old.store != showView nd.store then 1 else 0) }
+
+def insertStr (x : String) : List String → List String
+  | [] => [x]
+  | y :: ys => if x ≤ y then x :: y :: ys else y :: insertStr x ys
+def sortStr (l : List String) : List String := l.foldr insertStr []
+
+/-- cumulative last callback value per watcher id and key, as strings -/
+abbrev WLast := List (Nat × String × String)
+
+def wlastSet (l : WLast) (w : Nat) (k v : String) : WLast :=
+  match l with
+  | [] => [(w, k, v)]
+  | (w', k', v') :: r => if w' = w ∧ k' = k then (w, k, v) :: r else (w', k', v') :: wlastSet r w k v
+
+/-- watcher section: `-` or logs joined by `%`; log := id*live*calls; calls := `-` | call (`&` call)*; call := key$val -/
+def parseWLogs (s : String) : List (Nat × Bool × List (String × String)) :=
+  if s == "-" then [] else
+  (s.splitOn "%").filterMap fun lg =>
+    match lg.splitOn "*" with
+    | [id, live, calls] =>
+      let cs := if calls == "-" then [] else (calls.splitOn "&").filterMap fun c =>
+        match c.splitOn "$" with
+        | [k, v] => some (k, v)
+        | _ => none
+      id.toNat?.map fun i => (i, live == "1", cs)
+    | _ => none
+
+def foldWLogs (acc : WLast) (logs : List (Nat × Bool × List (String × String))) : WLast :=
+  logs.foldl (fun a (id, _, cs) => cs.foldl (fun a (k, v) => wlastSet a id k v) a) acc
+
+def modelWLast (s : Sim) : List String :=
+  sortStr (s.nodes.flatMap fun nd => nd.watchers.flatMap fun w => w.last.map fun (k, v) => s!"{w.id}:{k}:{showVal v}")
+
+def implWLast (l : WLast) (liveIds : List Nat) : List String :=
+  sortStr ((l.filter fun (w, _, _) => liveIds.contains w).map fun (w, k, v) => s!"{w}:{k}:{v}")
+
+/-- one step: returns the new simulation state and a mismatch description (model's view) if the
+implementation's observation differs from the model's. -/
+def step (s : Sim) (wl : WLast) (ev ob : String) : Sim × WLast × Option String :=
+  let cfg := s.conf.cfg
+  let e := ev.splitOn "!"
+  let o := ob.splitOn "!"
+  if ob.startsWith "PANIC" then (s, wl, some "model-does-not-panic") else
+  match e, o with
+  | ["cas", n, key, ops], [t0, tn, res, snap] =>
+    match n.toNat?, t0.toInt?, tn.toInt?, (ops.splitOn "+").mapM parseOp with
+    | some n, some t0, some tn, some ops =>
+      let nd := s.node n
+      let v0 := verSum nd
+      let (nd', r) := cas cfg tn (tn * 1000) nd key (applyOps t0 s.conf.clash (key.startsWith "p") ops)
+      let rs := match r with | .ok => "ok" | .noChange => "nochg" | .err => "err"
+      let s' := { s.setNode n nd' with changes := s.changes + (verSum nd' - v0) }
+      let want := s!"{rs}!{showSnap nd'}"
+      (s', wl, if want == s!"{res}!{snap}" then none else some want)
+    | _, _, _, _ => (s, wl, some "bad-cas-event")
+  | ["g", n], [_, msgs, q] =>
+    match n.toNat? with
+    | some n =>
+      let (nd', out) := gossip cfg (s.node n)
+      let obsMsgs := if msgs == "-" then [] else msgs.splitOn "|"
+      let want := sortStr (out.map showMsg)
+      let parsed := obsMsgs.filterMap parseMsg
+      let s' := { s.setNode n nd' with pool := s.pool ++ parsed }
+      let wq := s!"{nd'.localQ.length},{nd'.gossipQ.length}"
+      (s', wl, if want == sortStr obsMsgs ∧ parsed.length == obsMsgs.length ∧ wq == q then none
+               else some ("batch=" ++ "|".intercalate want ++ " q=" ++ wq))
+    | none => (s, wl, some "bad-g-event")
+  | ["d", n, m], [tn, snap] =>
+    match n.toNat?, m.toNat?, tn.toInt? with
+    | some n, some m, some tn =>
+      match s.pool[m]? with
+      | some msg =>
+        let nd := s.node n
+        let nd' := notifyMsg cfg tn nd msg
+        let s' := { s.setNode n nd' with changes := s.changes + (verSum nd' - verSum nd) }
+        (s', wl, if showSnap nd' == snap then none else some (showSnap nd'))
+      | none => (s, wl, some "pool-index")
+    | _, _, _ => (s, wl, some "bad-d-event")
+  | ["x", n, _, _, _], [tn, cls, content, _, after] =>
+    match n.toNat?, tn.toInt? with
+    | some n, some tn =>
+      let nd := s.node n
+      let nd' := if cls == "ok" then
+          match parseMsg content with
+          | some msg => notifyMsg cfg tn nd msg
+          | none => nd
+        else nd
+      (s.setNode n nd', wl, if showSnap nd' == after then none else some (showSnap nd'))
+    | _, _ => (s, wl, some "bad-x-event")
+  | ["pp", a, b], [tn, pairs, storeA, snapB] =>
+    match a.toNat?, b.toNat?, tn.toInt? with
+    | some a, some b, some tn =>
+      let na := s.node a
+      let ps := if pairs == "-" then [] else pairs.splitOn "|"
+      let obsMsgs := ps.filterMap fun p => if p.startsWith "ok:" then parseMsg (p.drop 3).toString else none
+      let wantLS := sortStr ((localState na).map fun m => "ok:" ++ showMsg m)
+      let nb := s.node b
+      let nb' := mergeRemoteState cfg tn nb obsMsgs
+      let s' := { s.setNode b nb' with changes := s.changes + (verSum nb' - verSum nb) }
+      let okLS := wantLS == sortStr ps ∧ showStore na.store == storeA
+      (s', wl, if okLS ∧ showSnap nb' == snapB then none
+               else some (if okLS then showSnap nb' else "localstate=" ++ "|".intercalate wantLS))
+    | _, _, _ => (s, wl, some "bad-pp-event")
+  | ["ppx", _, b, _, _], [tn, pairs, _, snapB] =>
+    match b.toNat?, tn.toInt? with
+    | some b, some tn =>
+      let ps := if pairs == "-" then [] else pairs.splitOn "|"
+      let obsMsgs := ps.filterMap fun p => if p.startsWith "ok:" then parseMsg (p.drop 3).toString else none
+      let nb' := mergeRemoteState cfg tn (s.node b) obsMsgs
+      (s.setNode b nb', wl, if showSnap nb' == snapB then none else some (showSnap nb'))
+    | _, _ => (s, wl, some "bad-ppx-event")
+  | [w, n, key], [_, snap] =>
+    if w == "w" ∨ w == "wp" then
+      match n.toNat? with
+      | some n =>
+        let nd' := addWatcher cfg (s.node n) s.nextW (w == "wp") (str? key)
+        ({ s.setNode n nd' with nextW := s.nextW + 1 }, wl, if showSnap nd' == snap then none else some (showSnap nd'))
+      | none => (s, wl, some "bad-w-event")
+    else if w == "del" then
+      match n.toNat?, parseSnap snap with
+      | some n, some sn =>
+        -- the update time is a wall-clock reading of the implementation: read it back
+        let ut := match getE sn.store key with | some e => e.updateTime | none => 0
+        let tn := (o.headD "0").toInt?.getD 0
+        let nd' := delete cfg tn ut (s.node n) key
+        (s.setNode n nd', wl, if showSnap nd' == snap then none else some (showSnap nd'))
+      | _, _ => (s, wl, some "bad-del-event")
+    else (s, wl, some "unknown-event")
+  | ["rs", n], [_] =>
+    match n.toNat? with
+    | some n => (s.setNode n {}, wl, none)
+    | none => (s, wl, some "bad-rs-event")
+  | ["P", _], [_] => (s, wl, none)
+  | ["sl"], [_] => (s, wl, none)
+  | [k], _ =>
+    if k == "st" ∨ k == "fin" then
+      -- obs: tn ! snap(0) ! ... ! snap(n-1) ! watcherlogs
+      let s' := { s with nodes := s.nodes.map (settle cfg) }
+      let snaps := (o.drop 1).take s.nodes.length
+      let logs := parseWLogs (o.getLastD "-")
+      let wl' := foldWLogs wl logs
+      let live := s'.nodes.flatMap fun nd => nd.watchers.map (·.id)
+      let wantSnaps := s'.nodes.map showSnap
+      let mw := modelWLast s'
+      let iw := implWLast wl' live
+      (s', wl', if wantSnaps != snaps then some ("snaps=" ++ "!".intercalate wantSnaps)
+                else if mw != iw then some ("watchers=" ++ ",".intercalate mw) else none)
+    else (s, wl, some "unknown-event")
+  | _, _ => (s, wl, some "event-observation-shape")
+
+def replay (conf : Conf) (evs obs : List String) : Sim × Option String := Id.run do
+  let mut s : Sim := { conf := conf, nodes := List.replicate conf.n {} }
+  let mut wl : WLast := []
+  let mut i := 0
+  for (ev, ob) in evs.zip obs do
+    let (s', wl', d) := step s wl ev ob
+    s := s'
+    wl := wl'
+    match d with
+    | some d => return (s, some s!"ev#{i}:{ev} model={d}")
+    | none => pure ()
+    i := i + 1
+  return (s, none)
+
+/-! ### judge: the property statement on the implementation's own observations -/
+
+def rankI (i : Inst) : Int × Bool := (i.ts, i.state == .LEFT)
+def rankLe (a b : Int × Bool) : Bool := a.1 < b.1 || (a.1 == b.1 && (!a.2 || b.2))
+
+/-- every entry of `acked` (a value a CAS left behind at its node) is dominated by `fin` -/
+def dominated (acked fin : Val) : Bool :=
+  match acked, fin with
+  | .ring a, .ring f => a.all fun e => match C03.get? f e.id with
+      | some x => rankLe (rankI e) (rankI x)
+      | none => false
+  | .part a, .part f =>
+    (a.parts.all fun p => match C03P.getP f.parts p.id with
+      | some x => rankLe (p.stateTs, p.state == C03P.partDeleted) (x.stateTs, x.state == C03P.partDeleted) && p.lockedTs ≤ x.lockedTs
+      | none => false) &&
+    (a.owners.all fun w => match C03P.getO f.owners w.id with
+      | some x => rankLe (w.ts, w.state == C03P.ownerDeleted) (x.ts, x.state == C03P.ownerDeleted)
+      | none => false)
+  | _, _ => false
+
+def lookup {α : Type} (l : List (String × α)) (k : String) : Option α := (l.find? (·.1 == k)).map (·.2)
+
+structure JState where
+  bad : List String := []
+  /-- node restarted after index -/
+  acks : List (Nat × String × Val) := []       -- node, key, value left by an acknowledged CAS
+  wreg : List (Nat × Nat × Bool × String × List (String × Nat × String)) := []   -- watcher id, node, prefix, key, (version, exposed value) per key at registration
+  wl : WLast := []
+  nextW : Nat := 0
+  forged : Bool := false
+
+def judge (conf : Conf) (evs obs : List String) : List String := Id.run do
+  let mut js : JState := {}
+  for (ev, ob) in evs.zip obs do
+    let e := ev.splitOn "!"
+    let o := ob.splitOn "!"
+    if ob.startsWith "PANIC" then
+      js := { js with bad := s!"panic:{e.headD ""}" :: js.bad }
+      continue
+    match e, o with
+    | ["cas", n, key, _], [_, _, res, snap] =>
+      if res == "ok" then
+        match n.toNat?, parseSnap snap with
+        | some n, some sn =>
+          match getE sn.store key with
+          | some en => js := { js with acks := (n, key, en.val) :: js.acks }
+          | none => pure ()
+        | _, _ => js := { js with bad := "unparsable-observation" :: js.bad }
+    | ["x", _, _, _, _], [_, cls, _, before, after] =>
+      if cls != "ok" ∧ before != after then js := { js with bad := s!"malformed-message-changed-state:{cls}" :: js.bad }
+      -- a corrupted message that still decodes is indistinguishable from an authentic one: the
+      -- history then contains content no writer produced (outside the quantifier)
+      if cls == "ok" then js := { js with forged := true }
+    | ["ppx", _, _, mode, _], [_, pairs, before, after] =>
+      let ps := if pairs == "-" then [] else pairs.splitOn "|"
+      -- a pair is well-formed if it decodes and has a non-empty key ("Key must be non-empty", kv.proto)
+      let wellFormed (p : String) : Bool := p.startsWith "ok:" && !p.startsWith "ok:="
+      match parseSnap before, parseSnap after with
+      | some b, some a =>
+        if (getE a.store "").isSome ∧ (getE a.store "") != (getE b.store "") then js := { js with bad := "empty-key-pair-stored" :: js.bad }
+        else if ps.all (fun p => !wellFormed p) ∧ before != after then
+          js := { js with bad := "malformed-state-changed-state" :: js.bad }
+      | _, _ => js := { js with bad := "unparsable-observation" :: js.bad }
+      if mode != "trunc" ∧ ps.any wellFormed then js := { js with forged := true }
+      if ps.any (fun p => p.startsWith "ok:=") then js := { js with forged := true }
+    | ["rs", n], _ =>
+      match n.toNat? with
+      | some n => js := { js with acks := js.acks.filter (·.1 != n), wreg := js.wreg.filter (·.2.1 != n) }
+      | none => pure ()
+    | [w, n, key], [_, snap] =>
+      if w == "w" ∨ w == "wp" then
+        match n.toNat?, parseSnap snap with
+        | some n, some sn =>
+          js := { js with wreg := (js.nextW, n, w == "wp", str? key, sn.store.map fun (k, en) => (k, en.version, ((lookup sn.view k).map showVal).getD "")) :: js.wreg,
+                          nextW := js.nextW + 1 }
+        | _, _ => js := { js with bad := "unparsable-observation" :: js.bad }
+    | [k], _ =>
+      if k == "st" ∨ k == "fin" then
+        let snaps := ((o.drop 1).take conf.n).map parseSnap
+        js := { js with wl := foldWLogs js.wl (parseWLogs (o.getLastD "-")) }
+        if snaps.any (·.isNone) then js := { js with bad := "unparsable-observation" :: js.bad }
+        else if k == "fin" then
+          let sn := snaps.filterMap id
+          -- (1) all nodes expose the same value for every key
+          if !conf.clash ∧ !conf.gc ∧ !conf.del ∧ !js.forged then
+            match sn with
+            | [] => pure ()
+            | s0 :: rest =>
+              let v0 := sortStr (s0.view.map fun (k, v) => s!"{k}={showVal v}")
+              if rest.any fun s => sortStr (s.view.map fun (k, v) => s!"{k}={showVal v}") != v0 then
+                js := { js with bad := "nodes-differ-after-sync" :: js.bad }
+          -- (2) every acknowledged CAS is contained in every node's value
+          if !conf.gc ∧ !conf.del ∧ !js.forged then
+            for (_, key, v) in js.acks do
+              for s in sn do
+                match getE s.store key with
+                | some en => if !dominated v en.val then js := { js with bad := s!"acked-cas-not-visible:{key}" :: js.bad }
+                | none => js := { js with bad := s!"acked-cas-not-visible:{key}" :: js.bad }
+          -- (3) every registered watcher has been called with the final value of every key that
+          --     changed after its registration
+          for (wid, n, isP, wkey, vers) in js.wreg do
+            match sn[n]? with
+            | none => pure ()
+            | some s =>
+              for (k, en) in s.store do
+                let watched := if isP then k.startsWith wkey else k == wkey
+                let cur := (lookup s.view k).map showVal
+                let (regVer, regView) := (lookup vers k).getD (0, "")
+                if watched ∧ (regVer != en.version ∨ some regView != cur) then
+                  let got := (js.wl.find? fun (w, k', _) => w == wid ∧ k' == k).map (·.2.2)
+                  if got != cur then js := { js with bad := s!"watcher-not-called-with-final-value:{k}" :: js.bad }
+    | _, _ => pure ()
+  return js.bad.eraseDups
+
+def countEv (evs : List String) (p : String) : Nat := (evs.filter (·.startsWith p)).length
+
+def bucket (n : Nat) : String := if n = 0 then "0" else if n ≤ 2 then "1-2" else if n ≤ 8 then "3-8" else "9+"
+
+def handleRun (f : List String) : String × String × String :=
+  match f with
+  | [cfg, evs, obs] =>
+    let conf := parseConf cfg
+    let evs := evs.splitOn " "
+    let obs := obs.splitOn " "
+    if evs.length != obs.length then ("event-observation-count", "-", "-") else
+    let (s, d) := replay conf evs obs
+    let j := judge conf evs obs
+    let tags := s!"n={conf.n} ev={bucket (evs.length / 4)} chg={bucket s.changes} cas={bucket (countEv evs "cas")} d={bucket (countEv evs "d!")} x={bucket (countEv evs "x!" + countEv evs "ppx!")} pp={bucket (countEv evs "pp!")} w={bucket s.nextW} rs={bucket (countEv evs "rs!")} lit={conf.lit} ni={bit conf.ni} clash={bit conf.clash} gc={bit conf.gc} skew={bit conf.skew} del={bit conf.del} silent={bucket s.silent}"
+    (d.getD "-", if j.isEmpty then "-" else ",".intercalate j, tags)
+  | _ => ("bad-fields", "-", "-")
+
+/-- `ringBroadcast.Invalidates` as a table: model diff + the statement "a queued update is
+superseded only by an update (of the same key, not older) whose content contains it". -/
+def handleInv (f : List String) : String × String × String :=
+  match f with
+  | [nk, nc, nv, ok, oc, ov, got] =>
+    let names (s : String) : List String := if s == "-" then [] else (s.splitOn ",").map str?
+    match nv.toNat?, ov.toNat? with
+    | some nv, some ov =>
+      let m := invalidates nk (names nc) nv ok (names oc) ov
+      let g := got == "1"
+      let contained := (names oc).all fun x => (names nc).any (· == x)
+      let j := if g ∧ !(nk == ok ∧ contained ∧ nv ≥ ov) then "superseded-by-update-not-containing-it" else "-"
+      (if m == g then "-" else s!"invalidates={bit m}", j, s!"inv={bit g} samekey={bit (nk == ok)} sub={bit contained}")
+    | _, _ => ("bad-input", "-", "-")
+  | _ => ("bad-fields", "-", "-")
+
+def handle (cmd : String) (f : List String) : String × String × String :=
+  if cmd == "C06.run" then handleRun f
+  else if cmd == "C06.inv" then handleInv f
+  else ("unknown-cmd", "-", "-")
 
 end OracleC06
